@@ -55,7 +55,7 @@ func vfEqStrings(a, b []string) bool {
 // string up to the bound over the full alphabet.
 func VF_C03_chunks() {
 	s := vfString("s")
-	vfAssume(vfRuneLen(s) <= vfBound("chunks.len", 4, 6))
+	vfAssume(vfRuneLen(s) <= vfBound("chunks.len", 4, 9))
 	got, err := NewChunker().Chunks(s)
 	vfObserve("chunks", strings.Join(got, "\x1f"))
 	if err != nil {
@@ -172,7 +172,7 @@ func init() {
 func VF_C03_kind() {
 	c := vfString("chunk")
 	u := vfString("userFn")
-	n := vfBound("kind.len", 6, 9)
+	n := vfBound("kind.len", 6, 10)
 	vfAssume(vfRuneLen(c) <= n)
 	vfAssume(vfRuneLen(u) <= 3 && vfInRe(u, docGoIdent))
 	vfAssume(u != "env" && u != "envInt" && u != "todo")
@@ -284,7 +284,7 @@ func vfDoublePercent(t string) string {
 // dependency and its tokens mean the original string.
 func VF_C03_double() {
 	t := vfString("t")
-	vfAssume(vfRuneLen(t) <= vfBound("double.len", 4, 6))
+	vfAssume(vfRuneLen(t) <= vfBound("double.len", 4, 8))
 	s := vfDoublePercent(t)
 	tz := NewTokenizer(NewChunker(), vfFactory(""))
 	tks, err := tz.Tokenize(s)
@@ -314,7 +314,7 @@ func VF_C03_double() {
 // dependencies in chunk order.
 func VF_C03_tokenize() {
 	s := vfString("s")
-	vfAssume(vfRuneLen(s) <= vfBound("tokenize.len", 4, 6))
+	vfAssume(vfRuneLen(s) <= vfBound("tokenize.len", 4, 8))
 	tz := NewTokenizer(NewChunker(), vfFactory(""))
 	tks, err := tz.Tokenize(s)
 	for _, t := range tks {
